@@ -15,9 +15,8 @@
    harness presenting entities and fields in sort.Strings order (all theorems hold for every order);
    the nested relationship map is one map keyed by the pair (from alias, to alias) - the empty inner
    maps the code creates have no output; aliases "_<n>" are the numbers n, compared as decimal strings
-   where the code sorts them; the title and the PlantUML header are not modelled.  Enum items: Go ranges over
-   the map entity.Items; the harness presents the items in an order consistent with that iteration (for equal
-   values the name that `valToName[val] = name` wrote last comes last) - the adversarial map order of DESIGN.md. *)
+   where the code sorts them; the title and the PlantUML header are not modelled.  Enum items: the code sorts the
+   names by (value, name); the harness presents the items in sort.Strings order of the names. *)
 From Coq Require Import List PeanoNat PArith ZArith Bool Decimal.
 Import ListNotations.
 Require Import Verif.DataModel.DmShapeTypes.
@@ -56,7 +55,7 @@ Inductive fty :=
 Definition fields := list (positive * fty).         (* attrNames after sort.Strings; names opaque *)
 Inductive tdef :=
 | DRel (fs:fields) | DTuple (fs:fields) | DPrim (p:nat)
-| DEnum (items:list (positive * Z))   (* entity.Items in (a possible) map iteration order: name, value *)
+| DEnum (items:list (positive * Z))   (* entity.Items in sort.Strings order of the names: name, value *)
 | DOther                        (* Type != nil but none of the four: union, non-primitive alias, ... *)
 | DNil.                         (* Type == nil : goes to ignoredTypes *)
 Record entity := { e_app : str; e_name : str; e_def : tdef }.
@@ -204,18 +203,15 @@ Definition draw_primitive (sh:shape) (s:st) (e:entity) (p:nat) : st * list item 
   ({| syms := sy; rel := rel s |}, [IClass enc (e_key e) (HPrim p); IEnd]).
 
 (* ---------- DrawEnum ---------- *)
-(* for name, val := range entity.Items { vals = append(vals, int(val)); valToName[int(val)] = name } *)
-Fixpoint val_to_name (items:list (positive * Z)) (v:Z) (cur:positive) : positive :=
-  match items with
-  | [] => cur
-  | (n, v') :: items' => val_to_name items' v (if Z.eqb v v' then n else cur)
-  end.
-Fixpoint insert_z (x:Z) (l:list Z) : list Z :=
-  match l with [] => [x] | y :: l' => if Z.leb x y then x :: l else y :: insert_z x l' end.
-Fixpoint sort_z (l:list Z) : list Z := match l with [] => [] | x :: l' => insert_z x (sort_z l') end.   (* sort.Ints *)
-(* for _, val := range vals { WriteString(valToName[val] + "\n") } *)
-Definition enum_lines (items:list (positive * Z)) : list item :=
-  map (fun v => IItem (val_to_name items v 1%positive)) (sort_z (map snd items)).
+(* (since cdeb394) names := the keys of entity.Items; sort.Slice(names, by (Items[name], name)); one line per name.
+   The comparison is a total order on the (distinct) names, so the result does not depend on the map order: the
+   harness presents the items in sort.Strings order of the names and the model sorts them stably by value. *)
+Fixpoint insert_item (x:positive * Z) (l:list (positive * Z)) : list (positive * Z) :=
+  match l with [] => [x] | y :: l' => if Z.leb (snd x) (snd y) then x :: l else y :: insert_item x l' end.
+Fixpoint sort_items (l:list (positive * Z)) : list (positive * Z) :=
+  match l with [] => [] | x :: l' => insert_item x (sort_items l') end.
+(* for _, name := range names { WriteString(name + "\n") } *)
+Definition enum_lines (items:list (positive * Z)) : list item := map (fun x => IItem (fst x)) (sort_items items).
 Definition draw_enum (sh:shape) (s:st) (e:entity) (items:list (positive * Z)) : st * list item :=
   let '(sy, enc) := uvar (syms s) (enc_parts (sh_enum_key sh) e) in
   ({| syms := sy; rel := rel s |}, IClass enc (e_key e) HEnum :: enum_lines items ++ [IEnd]).
